@@ -682,3 +682,39 @@ def quantified_anchor_matches(pi: int, si: int) -> bool:
     # search mode = the whole subject matches  [\s\S]* (?:P) [\s\S]*  (anchors inside P still refer to the ends of the subject)
     want = xsd_match('[' + chr(92) + 's' + chr(92) + 'S]*(?:' + p + ')[' + chr(92) + 's' + chr(92) + 'S]*', '1.0', False, subj, xpath=True)
     return ev(T_QA['m'], s=subj, p=p) == [want]
+
+
+# --- fn:tokenize against the partition fn:analyze-string computes (the consistency law of the property): patterns with capturing groups and
+#     anchors, where `re.split` semantics (captured groups are returned, a later `search` on a token) differ from "the parts between matches" -----
+
+TK_PATTERNS = ('(a)(b)', '^a', '(a)|(c)', 'a(b)?', '(a)+', 'b$', '(a|b)' + chr(92) + '1', 'ab', '(x)?a', '^(a)')
+TK_SUBJECTS = ('xaby', 'aab', 'abab', 'xabyab', 'aabb', '', 'b', 'ab', 'cab')
+T_TK = parse_all({'t': 'tokenize($s, $p)', 'a': 'analyze-string($s, $p)/*/(local-name(), string(.))'})
+
+
+def _tokens_from_partition(parts):
+    """tokens = the non-match parts, with a zero-length token at the start/end of the input and between two adjacent matches (F&O 5.6.4)"""
+    tokens, cur = [], ''
+    for k in range(0, len(parts), 2):
+        if parts[k] == 'match':
+            tokens.append(cur)
+            cur = ''
+        else:
+            cur = parts[k + 1]
+    tokens.append(cur)
+    return tokens
+
+
+@ob(budget=200, bound='10 patterns with capturing groups / anchors / back-references x 9 subjects (indices chosen by the solver): fn:tokenize returns exactly '
+                      'the parts between the matches of the partition fn:analyze-string reports (no captured group text, no token dropped)',
+    funcs=[F2 + ':tokenize', 'elementpath/xpath30/_xpath30_functions.py:analyze-string'])
+def tokenize_is_the_nonmatch_parts(pi: int, si: int) -> bool:
+    """
+    pre: 0 <= pi <= 9 and 0 <= si <= 8
+    post: _
+    """
+    p = TK_PATTERNS[[k for k in range(10) if k == pi][0]]
+    subj = TK_SUBJECTS[[k for k in range(9) if k == si][0]]
+    parts = ev(T_TK['a'], s=subj, p=p)
+    want = _tokens_from_partition(parts) if subj else []
+    return ev(T_TK['t'], s=subj, p=p) == want
